@@ -66,12 +66,19 @@ package types
 //@ func (k TSSKeeper) CreateGroup
 //@ trusted
 //@ modifies Other
+// the tss keeper's activity flag of (group, address) - the flag the block reward reads - as an exact log on the opaque
+// state of the other modules
+//@ spec tssSetActive(o OtherState, g Int, a Addr, v Bool) OtherState uninterpreted
 //@ func (k TSSKeeper) ActivateMember
 //@ trusted
 //@ modifies Other
+//@ ensures err == nil ==> Other == tssSetActive(old(Other), groupID, address, true)
+//@ ensures err != nil ==> Other == old(Other)
 //@ func (k TSSKeeper) DeactivateMember
 //@ trusted
 //@ modifies Other
+//@ ensures err == nil ==> Other == tssSetActive(old(Other), groupID, address, false)
+//@ ensures err != nil ==> Other == old(Other)
 
 //@ func (k AccountKeeper) GetModuleAccount
 //@ trusted
